@@ -107,6 +107,17 @@ func verify(w *crash.World, run *ev.Run, unit int64, db string, ups []crash.Upd,
 		}
 		// probes through the real Update on the reopened store
 		if stored == nil {
+			// nothing is held for this log: the store must not list it, and a first update must work
+			if logs, lerr := wt.GetLogs(); lerr == nil {
+				for _, id := range logs {
+					if id == l.ID {
+						run.Violate("listed_without_checkpoint;"+what, "after the kill the log is listed but has no readable checkpoint", unit, d2)
+					}
+				}
+			}
+			if _, err := wt.Update(context.Background(), l.ID, 0, l.Honest(0, 3), nil); err != nil {
+				run.Violate("first_update_refused_after_restart;"+what, "after the kill nothing is stored for the log, yet a first update is refused: "+err.Error(), unit, d2)
+			}
 			continue
 		}
 		n, _ := refnote.Parse(stored)
